@@ -65,7 +65,7 @@ def plan_run(run_seed, prop):
         "overrides": ov,
         "sampler_mode": tp.weighted([("faithful", 3), ("adversarial", 4), ("numpy", 2)]),
         "hw_encoding": tp.choice(["int", "str", "mixed"]),
-        "pipeline": tp.choice(["plain", "expand_let", "expand_macro", "expand_let_map", "fill_let", "passes_first"]),
+        "pipeline": tp.choice(["plain", "expand_let", "expand_macro", "expand_let_map", "fill_let", "passes_first", "autoload", "run_string", "run_file"]),
         "bounding": tp.weighted([("native", 6), ("caller", 1)]),
         "rerun": tp.chance(0.35),
         "tapes": None,
@@ -145,8 +145,13 @@ def result_digest(res):
 # ------------------------------------------------------------------------------ execution
 
 
-def parse_with(plan, text, G, pipeline):
+def parse_with(plan, text, G, pipeline, scratch=None):
     from jaqalpaq.parser import parse_jaqal_string
+
+    if pipeline in ("autoload", "run_string", "run_file"):
+        # the gate set comes from a pulse-definition module named by the program
+        ov = plan["overrides"] or None
+        return parse_jaqal_string(text, autoload_pulses=True, import_path=scratch, expand_let=bool(ov), override_dict=ov)
     from jaqalpaq.core.algorithm import expand_macros, fill_in_let, expand_subcircuits
     from jaqalpaq.core.algorithm.fill_in_map import fill_in_map
 
@@ -329,6 +334,17 @@ def execute(plan):
     G = GS.build_gateset()
     clock = seams.StepClock()
     budget = budget_for(M, R, prog)
+    scratch = modname = None
+    if plan["pipeline"] in ("autoload", "run_string", "run_file"):
+        import os, tempfile
+
+        scratch = tempfile.mkdtemp(prefix="jaqsim-e2-")
+        modname = "simgates_%x" % (plan["run_seed"] & 0xFFFFFFFF)
+        with open(os.path.join(scratch, modname + ".py"), "w") as f:
+            f.write(GS.PULSE_MODULE_SOURCE.format(verif=seams.VERIF_DIR, modname=modname, pre="", post=""))
+        prog = dict(prog, pulses="." + modname)
+        probe("pipeline_pulse_module")
+        budget += 200000
 
     texts = []
     lay = progast.Layout(st.get("layout"), cfg["layout_noise"])
@@ -361,8 +377,20 @@ def execute(plan):
             holder = {}
 
             def job():
-                c = parse_with(plan, text, G, pipeline)
+                c = parse_with(plan, text, G, pipeline, scratch)
                 holder["c"] = c
+                if pipeline == "run_string" and not ov:
+                    from jaqalpaq.run import run_jaqal_string
+
+                    return run_jaqal_string(text, import_path=scratch)
+                if pipeline == "run_file" and not ov:
+                    import os
+                    from jaqalpaq.run import run_jaqal_file
+
+                    path = os.path.join(scratch, "prog_%s.jaqal" % tag)
+                    with open(path, "w", encoding="utf8", newline="") as f:
+                        f.write(text)
+                    return run_jaqal_file(path)
                 return run_jaqal_circuit(c)
 
             o = seams.outcome_of(job, clock, budget)
@@ -497,6 +525,11 @@ def execute(plan):
         # structural part: expand_subcircuits(A) vs B
         check_c09_structure(viol, plan, texts, G, clock, budget, probe)
 
+    if scratch:
+        import shutil, sys
+
+        shutil.rmtree(scratch, ignore_errors=True)
+        sys.modules.pop(modname, None)
     digest = hexdigest(log)
     plan = dict(plan)
     plan["tapes"] = st.dump()
@@ -537,7 +570,7 @@ def check_c09_structure(viol, plan, texts, G, clock, budget, probe):
 
     tA = [t for t in texts if t[0] == "A"][0][1]
     tB = [t for t in texts if t[0] == "B"][0][1]
-    kw = dict(inject_pulses=G, autoload_pulses=False)
+    kw = dict(inject_pulses=G, autoload_pulses=False)  # a usepulses line stays pure header data here
     caller = plan["bounding"] == "caller"
 
     def job():
@@ -613,6 +646,10 @@ def candidates(plan):
         yield variant(rerun=False)
     if plan["pipeline"] != "plain":
         yield variant(pipeline="plain")
+    if plan["prog"].get("pulses"):
+        p0 = copy.deepcopy(plan["prog"])
+        p0["pulses"] = None
+        yield variant(prog=p0)
     if plan["sampler_mode"] != "faithful":
         yield variant(sampler_mode="faithful")
     if plan["bounding"] != "native":
